@@ -388,6 +388,16 @@ def named_tuple_fields(repo, name, spec):
     for node in tree.body:
         if isinstance(node, ast.ClassDef) and node.name == name and any(ast.unparse(b).endswith("NamedTuple") for b in node.bases):
             fields = [st.target.id for st in node.body if isinstance(st, ast.AnnAssign) and isinstance(st.target, ast.Name)]
+        if isinstance(node, ast.ClassDef) and node.name == name and len(node.bases) == 1 and isinstance(node.bases[0], ast.Call) \
+                and ast.unparse(node.bases[0].func).endswith("namedtuple") and len(node.bases[0].args) == 2 \
+                and not node.bases[0].keywords:
+            # `class name(namedtuple("name", [...]))`: the fields of the base; the class's `__new__` is trusted to store
+            # plain numeric arguments as they are (see design.d/Translator.md)
+            a1 = node.bases[0].args[1]
+            if isinstance(a1, ast.Constant) and isinstance(a1.value, str):
+                fields = a1.value.replace(",", " ").split()
+            elif isinstance(a1, (ast.List, ast.Tuple)) and all(isinstance(e, ast.Constant) for e in a1.elts):
+                fields = [e.value for e in a1.elts]
         if isinstance(node, ast.Assign) and len(node.targets) == 1 and isinstance(node.targets[0], ast.Name) \
                 and node.targets[0].id == name and isinstance(node.value, ast.Call) \
                 and ast.unparse(node.value.func).endswith("namedtuple") and len(node.value.args) == 2 \
@@ -505,8 +515,14 @@ class FnTranslator:
         a = node.args
         if a.vararg or a.kwarg or a.kwonlyargs or a.posonlyargs:
             self.fail(node, "unsupported parameter kind (*args / **kwargs / keyword-only)")
-        if node.decorator_list:
+        decs = [ast.unparse(d) for d in node.decorator_list]
+        if decs not in ([], ["classmethod"], ["staticmethod"]):
             self.fail(node, "decorated function")
+        # `@classmethod`: the first parameter (the class) is implicit and not bound (any use of it is rejected);
+        # `@staticmethod`: no implicit parameter
+        py_args = list(a.args[1:]) if decs == ["classmethod"] else list(a.args)
+        if decs == ["classmethod"] and not a.args:
+            self.fail(node, "classmethod without parameters")
         name = self.spec_name.replace(".", "__") if self.outer is None else self.outer.node.name + "__" + node.name
         info = FnInfo(self.spec_name if self.outer is None else node.name, lean_ident(name), self.m.namespace + "." + lean_ident(name))
         env = Env()
@@ -518,7 +534,7 @@ class FnTranslator:
                 env.d[pn] = (ln, sh)
         shapes = self.cfg.get("params", {})
         ndef = len(a.defaults)
-        for i, arg in enumerate(a.args):
+        for i, arg in enumerate(py_args):
             pn = arg.arg
             if pn in self.records:
                 # a record parameter: only its attribute paths are visible, each as a Num parameter
@@ -528,7 +544,7 @@ class FnTranslator:
             ln = self.param_name(pn)
             params.append((pn, ln, sh))
             env.d[pn] = (ln, sh)
-            j = i - (len(a.args) - ndef)
+            j = i - (len(py_args) - ndef)
             if j >= 0:
                 info.defaults[pn] = a.defaults[j]
         self.info = info
@@ -558,7 +574,7 @@ class FnTranslator:
         info.has_bool_or_list_attrs = bool(recb or recl)
         info.rec_lists = recl
         info.rec_bools = recb
-        info.py_params = [a_.arg for a_ in node.args.args]
+        info.py_params = [a_.arg for a_ in py_args]
         info.record_names = set(self.records) & set(info.py_params)
         info.rec_paths = rec
         info.n_opaque = len(self.opaque_params)
@@ -1647,6 +1663,13 @@ class FnTranslator:
                 if modname in self.m.registry:
                     return self.call_fn(node, self.m.registry[modname], orig, env, stmt)
             self.fail(node, f"call of `{f}` (not a translated function or supported builtin)")
+        if isinstance(node.func, ast.Attribute) and isinstance(node.func.value, ast.Name) \
+                and node.func.value.id not in env.d and (node.func.value.id + "." + node.func.attr) in self.m.funcs:
+            # `Class.method(..)` of this module: only static / class methods (no implicit `self`)
+            q = node.func.value.id + "." + node.func.attr
+            if [ast.unparse(d) for d in self.m.funcs[q].decorator_list] not in (["classmethod"], ["staticmethod"]):
+                self.fail(node, f"call of the instance method `{q}` through its class")
+            return self.call_fn(node, self.m, q, env, stmt)
         if isinstance(node.func, ast.Attribute) and isinstance(node.func.value, ast.Name):
             modalias = node.func.value.id
             if modalias in self.m.mod_aliases and modalias not in env.d:
